@@ -131,6 +131,13 @@ CHECKS = {
             'flags; raw re-write + same-format resize history; inferred formats for 164 dyadic targets.',
             'Trusted: reference quantizer/inference; a case is admitted only if every float intermediate is exact (checked with Fractions).',
             'DESIGN.md section 4 C17'),
+    'C11': (TECH_E1,
+            "No explored rendering differs from Python's own format(code % 2**n, 'b') / '%X' / sign-magnitude numerals, and no explored parse "
+            'fails to restore the code: every code of every format n_word<=8, n_frac 0..n_word; boundary/walking-bit/seed codes for 24 (thorough '
+            '69) word lengths up to 256; bin with frac_dot and prefixes None/0b/b/True, hex, base_repr 2/8/10/16; scalars, 1-d, 2-d and transposed '
+            'views; parsing of the forms 0b / b / plain / 0x / with binary point by constructor, call, set_val, from_bin method and function, in '
+            'value mode (n_word<=53) and raw mode (all widths), as list of str, exactly as rendered for 2-d, as 2-d ndarray and nested lists.',
+            'Trusted: Python string formatting of integers.', 'DESIGN.md section 4 C11'),
 }
 
 NOT_YET = {}
